@@ -62,6 +62,29 @@ impl std::fmt::Display for Payload {
 }
 impl std::error::Error for Payload {}
 
+/// ids 9000 / 9001: the sink's io::Error carries one of the CRATE's OWN errors as its payload (a forwarding sink has
+/// no other way to report a MetricResult failure through io::Result): InvalidInput-kind / IoError-kind
+pub const OWN_INVALID: u64 = 9000;
+pub const OWN_IO: u64 = 9001;
+
 pub fn payload_of(e: &std::io::Error) -> Option<u64> {
-    e.get_ref().and_then(|r| r.downcast_ref::<Payload>()).map(|p| p.0)
+    let r = e.get_ref()?;
+    if let Some(p) = r.downcast_ref::<Payload>() {
+        return Some(p.0);
+    }
+    r.downcast_ref::<cadence::MetricError>().map(|m| match m.kind() {
+        cadence::ErrorKind::InvalidInput => OWN_INVALID,
+        cadence::ErrorKind::IoError => OWN_IO,
+    })
+}
+
+/// the io::Error a scripted sink refuses with: kind, and a payload that identifies it
+pub fn refusal(kind: std::io::ErrorKind, id: u64) -> std::io::Error {
+    if id == OWN_INVALID {
+        std::io::Error::new(kind, cadence::MetricError::from((cadence::ErrorKind::InvalidInput, "inner")))
+    } else if id == OWN_IO {
+        std::io::Error::new(kind, cadence::MetricError::from(std::io::Error::new(std::io::ErrorKind::Other, Payload(5))))
+    } else {
+        std::io::Error::new(kind, Payload(id))
+    }
 }
